@@ -26,12 +26,26 @@ def explore(ctx):
     n = 700 if ctx.quick else 7000
     for it in range(n):
         c = dc.tree_rich_case(rng)
+        peek = rng.random() < 0.2
         try:
-            d = impl.run_compute(c)
+            if peek:
+                # a user criterion that accepts everything but reads levels / descendants while the tree grows
+                from astrodendro import Dendrogram
+
+                def peeking(structure, index=None, value=None):
+                    structure.level, structure.descendants, structure.ancestor
+                    return True
+                kw = impl.compute_kwargs(c)
+                cur = kw.get('is_independent')
+                kw['is_independent'] = ([] if cur is None else (list(cur) if isinstance(cur, (list, tuple)) else [cur])) + [peeking]
+                d = Dendrogram.compute(impl.case_array(c), **kw)
+                ctx.count('computed_with_a_criterion_that_reads_levels')
+            else:
+                d = impl.run_compute(c)
         except Exception as e:
-            ctx.oracle_failure(c, ['compute raised %r' % (e,)])
+            ctx.oracle_failure(c, ['compute raised %r' % (e,)] + (['(with a user criterion that reads level / descendants)'] if peek else []))
             continue
-        history = ['compute']
+        history = ['compute' + (' with a criterion that reads level/descendants' if peek else '')]
         variants = [('computed', d)]
         # warm caches, then prune (repeatedly)
         if rng.random() < 0.7:
